@@ -230,3 +230,16 @@ Theorem C05_list_repeat : forall W sem, wf W -> sem_nonblank_weak W sem -> store
                  = st_cache (fst (evaluate_list W sem s l)) m.
 Proof. exact list_repeat_weak. Qed.
 Print Assumptions C05_list_repeat.
+
+(* ANY two histories made of the same Build/Evaluate operations — in particular
+   two permutations of one history, with or without repetitions; Build = the
+   cell is compiled into the model without being evaluated — end in EQUAL
+   machine states: the same cell map and the same cache entry for every node
+   (so the order of first evaluation AND of compilation is invisible afterwards) *)
+Theorem C05_history_order : forall W sem, wf W -> sem_nonblank_weak W sem -> stored_ok W sem ->
+  forall s h1 h2, Inv W sem s -> Forall (be_op W) h1 -> Forall (be_op W) h2 ->
+    (forall o, In o h1 <-> In o h2) ->
+    forall m, st_built (fst (run W sem s h1)) m = st_built (fst (run W sem s h2)) m
+              /\ st_cache (fst (run W sem s h1)) m = st_cache (fst (run W sem s h2)) m.
+Proof. exact history_order_weak. Qed.
+Print Assumptions C05_history_order.
